@@ -416,6 +416,54 @@ pub fn decls(seed: u64, thorough: bool) -> Vec<Decl> {
         }
     }
 
+    // bounds that cannot denote a value of the bound type (overflowing arithmetic, a constant or suffixed
+    // literal of another type, a negative or fractional length): such a declaration cannot be honoured and
+    // has to be rejected - never accepted with a wrapped / truncated / coerced value. The model of these
+    // units is a dummy: being accepted at all is the violation (decided by the driver).
+    {
+        use IntTy::*;
+        let mut must_reject = |inner: Inner, kind: usize, text: &str, class: &str| {
+            let mut d = Decl::new(inner);
+            let b = bound(class, text, if inner.is_float() { "0.0" } else { "0" });
+            d.vals = Vals::Std(vec![if inner == Inner::Str { if kind % 2 == 0 { ValSpec::LenCharMax(b) } else { ValSpec::LenCharMin(b) } } else { with_kind(kind, b) }]);
+            d.derives = light.to_vec();
+            d.tags = vec![format!("c02:must-reject:{class}")];
+            out.push(d);
+        };
+        for (t, kind, text, class) in [
+            (U8, 1, "200 + 100", "overflowing-arith"),
+            (U8, 3, "WIDE", "const-of-wider-type"),
+            (I8, 0, "WIDE", "const-of-wider-type"),
+            (U16, 2, "-ONE", "neg-on-unsigned"),
+            (I8, 1, "KB + KB", "overflowing-const-arith"),
+            (U8, 1, "KB * 3", "overflowing-const-arith"),
+            (U8, 0, "300", "literal-out-of-range"),
+            (U16, 0, "-1", "literal-out-of-range"),
+            (I16, 3, "1 << 20", "overflowing-shift"),
+            (U32, 1, "u64::MAX", "const-of-wider-type"),
+            (U8, 1, "256u16", "suffixed-literal-of-other-type"),
+            (I32, 3, "5i64", "suffixed-literal-of-other-type"),
+            (I64, 2, "WIDE as i128", "cast-to-other-type"),
+            (U8, 1, "2.5", "float-for-integer"),
+        ] {
+            must_reject(Inner::Int(t), kind, text, class);
+        }
+        for (inner, kind, text, class) in [
+            (Inner::F32, 1, "1e39", "literal-out-of-range"),
+            (Inner::F32, 0, "WIDEF", "const-of-wider-type"),
+            (Inner::F32, 3, "1.0f64", "suffixed-literal-of-other-type"),
+            (Inner::F64, 1, "1e400", "literal-out-of-range"),
+            (Inner::F64, 2, "1.0f32", "suffixed-literal-of-other-type"),
+            (Inner::F64, 1, "WIDE", "integer-const-for-float"),
+            (Inner::Str, 0, "-1", "negative-length"),
+            (Inner::Str, 0, "WIDE", "const-of-other-type"),
+            (Inner::Str, 1, "2.5", "fractional-length"),
+            (Inner::Str, 0, "5u8", "suffixed-literal-of-other-type"),
+        ] {
+            must_reject(inner, kind, text, class);
+        }
+    }
+
     // C. seed-dependent random combinations: spelling × kind × type, two bounds, random layout
     let mut r = runner(seed);
     let n_random = if thorough { 400 } else { 80 };
